@@ -32,6 +32,7 @@ fn main() {
     }
     run.floor("problems with vicinity clustering", run.observed("features", "clustering"), run.by_tier(20, 100));
     run.floor("relation phase exercised", run.observed("phase", "relations"), 1);
+    run.floor("problems with two relations on one vehicle shift", run.observed_keys("relations_sharing_a_shift").iter().map(|k| run.observed("relations_sharing_a_shift", k)).sum(), run.by_tier(10, 100));
     run.floor("tightened-limits phase exercised", run.observed("phase", "tightened"), run.by_tier(5, 40));
     for rule in ["capacity", "time-window", "max-distance", "max-duration", "tour-size", "shift-end"] {
         run.floor(&format!("rule '{rule}' binding in a returned tour"), run.observed("rule_binding", rule), run.by_tier(2, 10));
